@@ -123,6 +123,14 @@ def templates():
         out.append((f + "-list-pattern", T.call(f, T.call("trim", s), T.lst(S())), "embedded"))
         out.append((f + "-list-pattern2", T.call(f, T.S("lit"), T.lst(T.S("k"), S())), "embedded"))
         out.append((f + "-list-subject", T.call(f, T.lst(S(), T.S("k")), T.S("q")), False))
+    for f in ("hassubset", "hassubsequence"):
+        out.append((f + "-list-left-first", T.call(f, T.lst(S(), T.S("k")), T.lst(T.S("k"), T.S("m"))), False))
+        out.append((f + "-list-left-last", T.call(f, T.lst(T.S("k"), S()), T.ident("tags")), False))
+        out.append((f + "-list-right-first", T.call(f, T.ident("tags"), T.lst(S(), T.S("k"))), False))
+        out.append((f + "-list-right-mixed", T.call(f, T.ident("tags"), T.lst(T.I(1), S(), T.I(2))), False))
+        out.append((f + "-list-right-single", T.call(f, T.ident("tags"), T.lst(S())), False))
+    out.append(("substring-list", ("cmp", "eq", T.call("length", T.call("substring", T.lst(S(), T.S("k"), T.S("m")), T.I(1))), T.I(2)), False))
+    out.append(("custom-call-list", ("cmp", "eq", T.call("my.f", T.lst(S(), T.S("k")), T.S("z")), T.I(1)), False))
     out.append(("length-list", ("cmp", "eq", T.call("length", T.lst(S(), T.S("k"))), T.I(2)), False))
     out.append(("concat-lists", ("cmp", "eq", T.call("length", T.call("concat", T.lst(S()), T.lst(T.S("k")))), T.I(2)), False))
     out.append(("indexof-0", ("cmp", "ge", T.call("indexof", S(), T.S("k")), T.I(0)), False))
@@ -302,7 +310,8 @@ def judge(ctx, tname, tmpl, like_pos, payload, dialect, alias, cls):
     bvals = [sql_lex.str_value(t[1]) for t in btoks if t[0] == "STR"]
     changed = [i for i, (a, b) in enumerate(zip(vals, bvals)) if a != b]
     if payload != "x":
-        if len(changed) > 1:
+        if len(changed) > 1 and len({vals[i] for i in changed}) > 1:
+            # (an argument a template uses twice shows up as two IDENTICAL literals: fine)
             ctx.fail(case, "string content spread over several SQL literals", observed=vals,
                      keys=keys, cls=cls, sig=["spread", tname])
             return
